@@ -21,7 +21,11 @@ Obligations generated from the real source on every run (DESIGN §3 C04):
      nothing on instances whose fields hold values of their declared types, and the text accessors return str;
  (g) metadata readers copy each documented property (title, creator, subject, keywords, description) unchanged from the
      node that stores it (c04_meta: dataflow postcondition per reader and property).
-A bounded native sweep (all fixtures, every accessor) validates the assumed models; it is never counted as a proof.
+ (h) isolation: the object whose path fields populate_from_path() fills belongs to this extraction (no module-level object, mutable
+     default, cached result flows into it: c04_flow.SharedSources), decided natively by three extractions in one process;
+ (i) DT-TYPED at the source: no recognised source of None reaches an int / str / bytes field at an image constructor.
+BOUNDED (never counted as proved): the native sweep (all fixtures, every accessor, repeated extractions) and the small-scope
+enumeration of hand-built content objects for iterate_units / get_full_text / iterate_images / iterate_tables.
 """
 import ast
 
@@ -550,11 +554,39 @@ def native_sweep(repo, tier):
     ff = res.get("failures", [])
     o = ground_obligation(oid, not ff, "; ".join(f"{x['file']}: {x['where']}: {x['detail']}" for x in ff[:4]) or f"{res.get('files')} fixtures x 2 path arguments: no interface failure",
                           "package", kind="assumption-validation", backend="native-replay(bounded: repository fixtures)")
+    o["bounded"] = True
+    o["bound"] = "all fixtures of the repository x {path, no path}, repeated extractions, documents without metadata parts, seven crafted metadata documents"
     return {"obligations": [o]}
 
 
 
-EXTRA = [file_metadata_defaults, FLOW.image_constructor_sites, FLOW.field_store_sites, FLOW.chr_sites, FLOW.decode_sites, FLOW.literal_sites, META.metadata_readers, native_sweep]
+def content_small_scope(repo, tier):
+    """BOUNDED stand-in (DESIGN 2.8) for the accessors this pack does not put under a symbolic contract (iterate_units /
+    get_full_text / iterate_images / iterate_tables of the content classes): every accessor is called natively on hand-built,
+    well-typed content objects of a small scope (replay/C04.py::content_scope).  Never counted as proved."""
+    import json
+    import os
+    import subprocess
+    from pyvc.flow import ground_obligation
+    root = os.path.dirname(os.path.dirname(os.path.abspath(__file__)))
+    oid = "C04/data_types.py::content-objects/bounded#small-scope-accessor-totality"
+    try:
+        p = subprocess.run(["/venv/bin/python", os.path.join(root, "replay", "run.py")], input=json.dumps({"property": "C04", "obligation": oid, "content_scope": True}),
+                           capture_output=True, text=True, timeout=900, env=dict(os.environ, VERIF_REPO=repo))
+        lines = [l for l in p.stdout.splitlines() if l.startswith("{")]
+        res = json.loads(lines[-1]) if lines else {}
+    except Exception as e:  # noqa
+        res = {"note": str(e)}
+    if "reproduced" not in res or ("instances" not in res and not res.get("reproduced")):
+        return {"obligations": [], "undecided": [{"obligation": oid, "why": "native small scope did not run: " + str(res.get("note", ""))[:200]}]}
+    o = ground_obligation(oid, not res["reproduced"], res.get("observed") or res.get("note", ""), DT, kind="bounded", backend="native-replay(bounded small scope)")
+    o["bounded"] = True
+    o["bound"] = "all content classes with defaults; DocContent: texts of <= 3 lines over a 6-line grammar x 3 image lists x 2 table lists"
+    o["vcs"] = res.get("instances") or res.get("instances_tried") or 1
+    return {"obligations": [o]}
+
+
+EXTRA = [content_small_scope, file_metadata_defaults, FLOW.image_constructor_sites, FLOW.field_store_sites, FLOW.chr_sites, FLOW.decode_sites, FLOW.literal_sites, FLOW.metadata_freshness_sites, META.metadata_readers, native_sweep]
 REPLAY_UNKNOWN = True     # obligations left `unknown` are searched natively (replay/C04.py); only a reproduced failing input is a violation
 TRUSTED = [
     "strings returned by third-party parsers (xml.etree / defusedxml, openpyxl, pypdf, olefile, xlrd, charset_normalizer, html.parser, "
@@ -641,7 +673,8 @@ def known_findings(kf, violations, repo, tier):
                 # (a document-declared charset); site ids are ordinals, so the match is by pattern, not by a fixed id
                 if any(fnmatch.fnmatchcase(oid, pat) for pat in f.get("covers", [f["obligation"]])):
                     r = replay({"property": "C04", "obligation": oid, "repo": repo})
-                    if r.get("reproduced") and "declared_charset" in (r.get("inputs") or {}):
+                    need = f.get("requires_input_key")
+                    if r.get("reproduced") and (need is None or need in (r.get("inputs") or {})):
                         covers.append(oid)
         out.append({"finding": f["id"], "still_fails": still, "line": f"{f['id']}: {f['what']}", "covers": covers,
                     "exclusion": f.get("exclusion"), "witness_replay": res.get("observed", res.get("note", ""))})
